@@ -114,20 +114,6 @@ def strict(e):
 # ---------------------------------------------------------------------------------------------
 
 
-def f_agg_or_window_over_constant(prog, idxs, ctx):
-    for i in idxs:
-        st = prog["steps"][i]
-        if st["verb"] not in ("mutate", "summarize"):
-            continue
-        for n in walk(st.get("kw")):
-            if n.get("k") == "fn" and (n["op"] in AGG or n["op"] in WIN):
-                if n["a"] and not has_col(n["a"][0]):
-                    return True
-                if n.get("flt") and not all(has_col(f) for f in n["flt"]):
-                    return True
-    return False
-
-
 def f_ungrouped_summarize_aggregates_dropped(prog, idxs, ctx):
     """An ungrouped summarize none of whose aggregate(-derived) columns survives: they are all overwritten /
     deselected within the same SELECT level, or a later alias() turns the query into a subquery and no later
@@ -315,7 +301,6 @@ FEATURES = {
     "null_typed_expression": f_null_typed_expression,
     "literal_with_pyformat_placeholder": f_literal_with_pyformat_placeholder,
     "group_by_constant_column": f_group_by_constant_column,
-    "agg_or_window_over_constant": f_agg_or_window_over_constant,
     "ungrouped_summarize_aggregates_dropped": f_ungrouped_summarize_aggregates_dropped,
     "window_without_arrange_after_arrange_verb": f_window_without_arrange_after_arrange_verb,
 }
